@@ -492,8 +492,12 @@ TrMkOp == IsEv("mk.op") /\ LET ev == T[l]  nm == ev.name IN
     [] nm = "randomize" -> Step(objs, <<MwVal(ev.obj), 1, TRUE>>, <<ev.out, ev.guard, RefreshOK(ev, ev.raw_before, ev.raw, ev.shares)>>)
     [] nm = "free" -> FreeStep(ev, Del(ev.obj), <<>>, <<>>)
 TrMkAead == IsEv("mk.aead") /\ LET ev == T[l]  v == CASE ev.scheme = "aead128" -> "128" [] ev.scheme = "aead128a" -> "128a" [] ev.scheme = "aead80pq" -> "80pq" IN
-  Step(objs, <<AeadEnc(v, MwVal(ev.obj), ev.n, ev.ad, ev.m), Len(ev.m) + 16, 1>>, <<ev.out, ev.clen, ev.guard>>)
-MaskedNext == TrMwOp \/ TrMsOp \/ TrMkOp \/ TrMkAead
+  \* encrypt, decrypt the result, decrypt a forgery - all with a const key object that must stay bit-identical
+  Step(objs, <<AeadEnc(v, MwVal(ev.obj), ev.n, ev.ad, ev.m), Len(ev.m) + 16, 1, 0, ev.m, -1, 1>>,
+             <<ev.out, ev.clen, ev.guard, ev.dec, ev.pt, ev.forged, ev.key_same>>)
+\* C16: an object that threads only pass as a const argument has the same bytes after the threads as before
+TrSharedConst == IsEv("shared.const") /\ LET ev == T[l] IN Step(objs, <<1>>, <<ev.same>>)
+MaskedNext == TrMwOp \/ TrMsOp \/ TrMkOp \/ TrMkAead \/ TrSharedConst
 
 -----------------------------------------------------------------------------
 (* C19: the command-line tools.  Events are whole scenarios executed on    *)
